@@ -35,6 +35,7 @@ class _Run:
     witness = None
     samples: list = []
     draws = 0
+    collected: list = []
 
 
 RUN = _Run()
@@ -96,6 +97,7 @@ def _entry() -> bool:
             RUN.draws += len(ctx.trace)
             if ctx.reached_n == 0:
                 RUN.abandoned["oracle-not-reached"] += 1
+            RUN.collected.extend(ctx.collected)
             for k, v in ctx.known_hits.items():
                 RUN.known_hits[k] = RUN.known_hits.get(k, 0) + v
         return True
@@ -161,6 +163,13 @@ def run_sym(spec):
         verdict = "harness_error"
     else:
         verdict = "inconclusive"
+    post = None
+    if verdict == "confirmed" and hasattr(RUN, "post") and RUN.post is not None:
+        # all-models obligations: compare the set collected over the exhausted path tree with the oracle
+        ok, clause, detail = RUN.post(RUN.cfg, RUN.collected)
+        post = {"ok": ok, "clause": clause, "detail": _jsonable(detail), "collected": len(RUN.collected)}
+        if not ok:
+            verdict = "refuted_post"
     inproc = None
     if verdict == "refuted":
         # concrete replay in this very process (tracer gone): the authoritative reproduction for code
@@ -169,6 +178,7 @@ def run_sym(spec):
         inproc = run_concrete(spec, script=RUN.witness["script"])
     return {
         "verdict": verdict,
+        "post": post,
         "inproc_replay": inproc,
         "states": states,
         "message": text,
@@ -204,6 +214,35 @@ def run_concrete(spec, script=None, seed=0):
     }
 
 
+def run_enumerate(spec):
+    """concrete depth-first enumeration of ALL draw sequences (finite-choice harnesses only):
+    the replay of an all-models verdict"""
+    collected, runs, failures = [], 0, []
+    stack = [[]]
+    limit = spec.get("max_runs", 200000)
+    while stack and runs < limit:
+        prefix = stack.pop()
+        ctx = Ctx("enum", script=prefix, fuel=RUN.cfg.get("fuel", 400))
+        try:
+            ok, clause, detail = call_harness(ctx)
+        except FuelExhausted:
+            ok, clause, detail = None, "abandoned", None
+        runs += 1
+        if ok is False:
+            failures.append({"clause": clause, "detail": _jsonable(detail), "script": list(ctx.trace)})
+        elif ok:
+            collected.extend(ctx.collected)
+        for pos in range(len(ctx.trace) - 1, len(prefix) - 1, -1):
+            lo, hi = ctx.ranges[pos]
+            for v in range(ctx.trace[pos] + 1, hi + 1):
+                stack.append(list(ctx.trace[:pos]) + [v])
+    out = {"runs": runs, "complete": not stack, "failures": failures[:3], "collected": len(collected)}
+    if RUN.post is not None:
+        ok, clause, detail = RUN.post(RUN.cfg, collected)
+        out["post"] = {"ok": ok, "clause": clause, "detail": _jsonable(detail)}
+    return out
+
+
 def main():
     spec = json.load(open(sys.argv[1]))
     mod = __import__(spec["module"], fromlist=["HARNESSES"])
@@ -219,6 +258,7 @@ def main():
         print("\n@@RESULT@@" + json.dumps(_jsonable(out)))
         return
     RUN.harness = mod.HARNESSES[spec["harness"]]
+    RUN.post = getattr(mod, "POST", {}).get(spec["harness"])
     RUN.cfg = spec.get("cfg", {})
     RUN.excluded = set(spec.get("excluded", []))
     mode = spec["mode"]
@@ -228,6 +268,8 @@ def main():
         out = run_sym(spec)
     elif mode == "replay":
         out = run_concrete(spec, script=spec["script"])
+    elif mode == "enumerate":
+        out = run_enumerate(spec)
     elif mode == "smoke":
         runs = []
         for k in range(spec.get("runs", 20)):
